@@ -375,7 +375,7 @@ def build(p):
           'preprocess_* keep the ids; get_clients answers in request order)',
           'InMemoryFederatedData constructor precondition: uniform feature lists and consistent rows '
           '(otherwise it raises ValueError by design)')
-  p.not_covered.append('shuffled_clients (each pass visits each client once): follows from '
-                       'buffered_shuffle, which is only bounded-checked in C15')
+  p.not_covered.append('shuffled_clients (each pass visits each client once): buffered_shuffle is proved in C15; the composition '
+                       'with clients() is checked by the bounded native stand-in views_all_access_paths on every run')
   p.not_covered.append('clients()/client_ids()/client_sizes() enumeration order of SQLite (ORDER BY rowid) '
                        'versus sorted order of the in-memory implementations — see known finding on size.agree')
